@@ -686,6 +686,39 @@ pub async fn deleverage(w: &mut World, m: &mut Mon, r: &mut R, lev: &Lev, g: usi
             m.r.count(if o.ok() { "scen.deleverage_repay_all_committed" } else { "scen.deleverage_repay_all_rejected" });
         }
     }
+    // the first forced withdrawal of a new day is limited like any other: a day later, one bracket
+    // whose withdrawal alone is worth more than a small daily limit
+    if limit != 0 && limit != u32::MAX {
+        w.chain.advance(pick(r, &[86_400i64, 86_401, 200_000]));
+        w.refresh_oracles();
+        let risk_metas = w.risk_metas(lev.acct, None, None);
+        let mut rem = w.mint_prefix(lev.ca);
+        rem.extend(risk_metas.clone());
+        let pos = {
+            let acc = w.acct(lev.acct);
+            let q = BankQ::of(&w.bank(lev.ca));
+            acc.lending_account.balances.iter().find(|b| b.active != 0 && b.bank_pk == w.banks[lev.ca].key).map(|b| to_u64_floor(&(fx(&b.asset_shares.value) * &q.asv)).unwrap_or(0)).unwrap_or(0)
+        };
+        // withdraw about as much value as is repaid (the bracket's own premium rule), as long as that
+        // is more than the daily limit
+        let rp = lev.borrowed / 2 + 1;
+        let wd = match (unit_usd_low(w, lev.ca), unit_usd_low(w, lev.db)) {
+            (Some(pc), Some(pd)) if pc > 0.0 && pd > 0.0 && rp as f64 * pd > limit as f64 * 1.5 => ((rp as f64 * pd / pc) as u64).min(pos),
+            _ => {
+                m.r.count("scen.first_withdrawal_of_a_new_day_not_above_limit");
+                return;
+            }
+        };
+        let ixs = vec![
+            ix::start_deleverage(gk, acct, risk.pubkey(), risk_metas.clone()),
+            ix::withdraw(gk, acct, risk.pubkey(), w.banks[lev.ca].key, ta_c, w.token_program_of_bank(lev.ca), wd, None, rem),
+            ix::repay(gk, acct, risk.pubkey(), w.banks[lev.db].key, ta_d, w.token_program_of_bank(lev.db), rp, None, w.mint_prefix(lev.db)),
+            ix::end_deleverage(gk, acct, risk.pubkey(), risk_metas),
+        ];
+        let o = w.exec(m, &ixs, &[&risk]).await;
+        m.r.count("scen.first_withdrawal_of_a_new_day_attempts");
+        m.r.count(&if o.ok() { "scen.first_withdrawal_of_a_new_day_committed".to_string() } else { format!("scen.first_withdrawal_of_a_new_day_rejected/{}", o.custom_code().map(|c| c.to_string()).unwrap_or_else(|| "other".into())) });
+    }
 }
 
 /// US dollars per native unit of bank `b` at the low-biased spot price (approximate, for sizing workloads)
